@@ -636,7 +636,7 @@ pub trait VectorIndex<'a>: Access<'a> {
     /// May panic from I/O errors.
     /// The iterator may also panic for the same reason.
     fn predecessor(&'a self, index: usize, value: <Self as Vector>::Item) -> Self::ValueIter {
-        let rank = self.rank(index + 1, value);
+        let rank = self.rank(index.saturating_add(1), value);
         let rank = if rank > 0 { rank - 1 } else { self.len() };
         self.select_iter(rank, value)
     }
